@@ -25,16 +25,25 @@
 (* verifier data and the right counter; CheckVD rejects iff the embedded    *)
 (* data differ; a step never succeeds on an inner proof that is not a       *)
 (* chain proof of this circuit.                                             *)
-(* Mutants: CheckVD compares only the digest; the step verifies the inner   *)
-(* proof under the data the proof itself carries instead of the own data    *)
-(* (then a foreign circuit's valid proof would extend the chain).           *)
+(* The circuit cannot constrain its verifier-data public inputs to be the   *)
+(* true data (they are not known before it is built): a prover may run the  *)
+(* base case with data that differ from the real ones in EXACTLY ONE        *)
+(* component - only the digest, or only one cap element (BadBaseDigest,     *)
+(* BadBaseCap).  Such a link is an otherwise honest proof: it verifies as a *)
+(* plain proof; only CheckVD tells it apart, and a recursive step on it     *)
+(* must fail because the inner proof's embedded data (digest AND cap) are   *)
+(* connected to the step's own.                                             *)
+(* Mutants: CheckVD compares only the digest; the step connects only the    *)
+(* digest of the embedded data; the step verifies the inner proof under the *)
+(* data the proof itself carries instead of the own data (then a foreign    *)
+(* circuit's valid proof would extend the chain).                           *)
 (***************************************************************************)
 EXTENDS Naturals, Sequences, FiniteSets, TLC, Json
 
-CONSTANTS MaxLen, Mutant     \* Mutant: "none" | "checkvd_digest_only" | "verify_under_embedded"
+CONSTANTS MaxLen, Mutant     \* Mutant: "none" | "checkvd_digest_only" | "step_ties_digest_only" | "verify_under_embedded"
 
 NoProof == [n |-> 0, digest |-> "none", cap |-> "none", ok |-> FALSE, underAlt |-> FALSE]
-Actions == {"StepBase", "StepRec", "TamperDigest", "TamperCap", "Foreign"}
+Actions == {"StepBase", "StepRec", "TamperDigest", "TamperCap", "Foreign", "BadBaseDigest", "BadBaseCap"}
 
 VARIABLES latest,     \* the proof in hand
           h,          \* history: sequence of [act, expect]
@@ -48,6 +57,8 @@ CheckVD(p) == IF Mutant = "checkvd_digest_only" THEN p.digest = "own" ELSE Own(p
 InnerAccepted(p) ==
   IF Mutant = "verify_under_embedded"
   THEN p.ok \/ p.underAlt                       \* verifies under whatever data the proof itself carries
+  ELSE IF Mutant = "step_ties_digest_only"
+  THEN p.ok /\ p.digest = "own"                 \* connect_hashes without connect_merkle_caps
   ELSE p.ok /\ Own(p)
 Obs(p, stepok) == [step |-> stepok, verify |-> p.ok, check_vd |-> CheckVD(p), counter |-> p.n, embedded_own |-> Own(p)]
 
@@ -69,12 +80,17 @@ Do(a) ==
                                  !.digest = IF a = "TamperDigest" THEN "alt" ELSE @,
                                  !.cap = IF a = "TamperCap" THEN "alt" ELSE @]
          IN /\ latest' = q /\ h' = Append(h, [act |-> a, expect |-> Obs(q, "n/a")]) /\ chainOK' = chainOK
+    [] a \in {"BadBaseDigest", "BadBaseCap"} ->
+         \* base case run with verifier data differing in exactly one component: an otherwise honest, verifying proof
+         LET q == [n |-> 1, digest |-> IF a = "BadBaseDigest" THEN "alt" ELSE "own",
+                   cap |-> IF a = "BadBaseCap" THEN "alt" ELSE "own", ok |-> TRUE, underAlt |-> FALSE]
+         IN /\ latest' = q /\ h' = Append(h, [act |-> a, expect |-> Obs(q, "bad-link")]) /\ chainOK' = chainOK
     [] a = "Foreign" ->
          \* a valid chain proof of ANOTHER cyclic circuit with the same common data (same counter so far)
          LET q == [n |-> latest.n, digest |-> "alt", cap |-> "alt", ok |-> FALSE, underAlt |-> TRUE]
          IN /\ latest' = q /\ h' = Append(h, [act |-> a, expect |-> Obs(q, "n/a")]) /\ chainOK' = chainOK
 
-Enabled(a) == a = "StepBase" \/ latest.n > 0
+Enabled(a) == a \in {"StepBase", "BadBaseDigest", "BadBaseCap"} \/ latest.n > 0
 Init == latest = NoProof /\ h = <<>> /\ chainOK = TRUE
 Next == /\ Len(h) < MaxLen
         /\ \E a \in Actions : Enabled(a) /\ Do(a)
